@@ -118,7 +118,11 @@ def gen_prog(rng, depth, maxops):
             if not prog[-1][1]:
                 break
         elif op == 'raise':
-            prog.append(['raise'])
+            # the new exception may be chained to the original explicitly
+            # (raise ... from original / excutils.raise_with_cause)
+            prog.append(['raise', core.weighted(rng, [(None, 3),
+                                                      ('from_orig', 1),
+                                                      ('with_cause', 1)])])
             break
         elif op == 'renest':
             # a second block around the SAME active exception
@@ -290,8 +294,19 @@ class Real:
                 ctx.reraise = op[1]
             elif name == 'raise':
                 lab = '%s:new:%s' % (self.tid, '.'.join(map(str, path + [j])))
+                how = op[1] if len(op) > 1 else None
+                if how == 'with_cause':
+                    class NewCaused(self.ex.CausedByException):
+                        pass
+                    try:
+                        self.ex.raise_with_cause(NewCaused, lab)
+                    except NewCaused as e:
+                        self.objs[lab] = e
+                        raise
                 e = NewErr(lab)
                 self.objs[lab] = e
+                if how == 'from_orig':
+                    raise e from orig
                 raise e
             elif name == 'force':
                 if op[1]:
